@@ -487,3 +487,7 @@ func (fi *FuncInfo) FactsAt(in ssa.Instruction) []Atom {
 	})
 	return out
 }
+
+// DomEdges calls f for every conditional edge that dominates block b
+// (innermost first) until f returns true.
+func DomEdges(b *ssa.BasicBlock, f func(iff *ssa.If, succ int) bool) { domEdges(b, f) }
